@@ -147,7 +147,9 @@ type Explorer struct {
 	qtimeout time.Duration
 	mu       sync.Mutex
 	cond     *sync.Cond
-	stack    []workItem
+	stacks   map[string][]workItem
+	order    []string
+	activeBy map[string]int
 	active   int
 	reports  map[string]*HarnessReport
 	started  map[string]time.Time
@@ -159,7 +161,8 @@ type Explorer struct {
 }
 
 func NewExplorer(e *Engine, workers int, qtimeout time.Duration) *Explorer {
-	x := &Explorer{e: e, workers: workers, qtimeout: qtimeout, reports: map[string]*HarnessReport{}, started: map[string]time.Time{}}
+	x := &Explorer{e: e, workers: workers, qtimeout: qtimeout, reports: map[string]*HarnessReport{}, started: map[string]time.Time{},
+		stacks: map[string][]workItem{}, activeBy: map[string]int{}}
 	x.cond = sync.NewCond(&x.mu)
 	return x
 }
@@ -169,8 +172,8 @@ func (x *Explorer) Run(hs []*Harness) {
 		x.reports[h.name] = &HarnessReport{H: h, InconclusiveReasons: map[string]int{}, AssertHeld: map[string]int{},
 			AssertTriv: map[string]int{}, AssertViol: map[string]int{}, AssertUnk: map[string]int{},
 			Reached: map[string]bool{}, Witness: map[string]*Model{}, Cover: map[string]bool{}, Notes: map[string]int{}}
-		x.stack = append(x.stack, workItem{h, nil})
-		x.started[h.name] = time.Now()
+		x.stacks[h.name] = append(x.stacks[h.name], workItem{h, nil})
+		x.order = append(x.order, h.name)
 	}
 	var wg sync.WaitGroup
 	for i := 0; i < x.workers; i++ {
@@ -200,24 +203,41 @@ func (x *Explorer) worker() {
 	}()
 	for {
 		x.mu.Lock()
-		for len(x.stack) == 0 && x.active > 0 {
-			x.cond.Wait()
+		pick := func() string {
+			best, bestN := "", 1<<30
+			for _, n := range x.order {
+				if len(x.stacks[n]) > 0 && x.activeBy[n] < bestN {
+					best, bestN = n, x.activeBy[n]
+				}
+			}
+			return best
 		}
-		if len(x.stack) == 0 {
+		name := pick()
+		for name == "" && x.active > 0 {
+			x.cond.Wait()
+			name = pick()
+		}
+		if name == "" {
 			x.mu.Unlock()
 			x.cond.Broadcast()
 			return
 		}
-		it := x.stack[len(x.stack)-1]
-		x.stack = x.stack[:len(x.stack)-1]
+		st := x.stacks[name]
+		it := st[len(st)-1]
+		x.stacks[name] = st[:len(st)-1]
 		rep := x.reports[it.h.name]
+		if _, ok := x.started[name]; !ok {
+			x.started[name] = time.Now()
+		}
 		if rep.Paths >= it.h.maxPaths || time.Since(x.started[it.h.name]) > it.h.budget {
 			rep.Truncated = true
+			x.stacks[name] = nil
 			x.mu.Unlock()
 			continue
 		}
 		rep.Paths++
 		x.active++
+		x.activeBy[name]++
 		x.mu.Unlock()
 
 		if solver == nil || solver.dead {
@@ -235,9 +255,10 @@ func (x *Explorer) worker() {
 
 		x.mu.Lock()
 		x.active--
+		x.activeBy[name]--
 		x.merge(rep, pr)
 		for _, a := range pr.alts {
-			x.stack = append(x.stack, workItem{it.h, a})
+			x.stacks[name] = append(x.stacks[name], workItem{it.h, a})
 		}
 		rep.Wall = time.Since(x.started[it.h.name])
 		x.mu.Unlock()
